@@ -1689,6 +1689,14 @@ func (p *pipe) doCacheMGet(ctx context.Context, cmd Cacheable, ttl time.Duration
 			}
 		}()
 		last := len(exec) - 1
+		if err := exec[last].Error(); err != nil {
+			// the transaction went through, but the rewritten command itself was answered with an error:
+			// there are no values to commit, so the flights of its keys must not stay pending
+			for _, key := range rewritten.Commands()[1 : keys+1] {
+				p.cache.Cancel(key, mgetcc, err)
+			}
+			return NewResult(exec[last], nil)
+		}
 		if len(rewritten.Commands()) == len(commands) { // all cache misses
 			return NewResult(exec[last], nil)
 		}
